@@ -246,7 +246,7 @@ def table(ctx, fb, rule, name, n=3):
         rows += 1
         r = walk(fb, name, found, n)
         inner = min(found) if found else None
-        key = "%s/bound-in=%s" % (name, sorted(found))
+        key = "%s/bound-in=%s" % (name, sorted(found)) + ("" if n == 3 else "/chain-of-%d" % n)
         ctx.inst(rule, key, {k: (v if not isinstance(v, list) else [list(x) if isinstance(x, tuple) else x for x in v]) for k, v in r.items()
                              if not k.startswith("_")})
         if "stuck" in r:
@@ -276,6 +276,6 @@ def table(ctx, fb, rule, name, n=3):
             got += " PANICS: %s" % r["panics"]
         ctx.oblige(ok)
         if not ok:
-            ctx.report(rule, key, "LexicalScope::%s with the name bound in frames %s of F0->F1->F2: %s; expected %s" % (
-                name, sorted(found), got, want), where_of(f))
+            ctx.report(rule, key, "LexicalScope::%s with the name bound in frames %s of %s: %s; expected %s" % (
+                name, sorted(found), "->".join("F%d" % i for i in range(n)), got, want), where_of(f))
     return rows
